@@ -6,7 +6,7 @@
    enclose exact images ([B_sound]). *)
 From Coq Require Import Reals List ZArith Bool.
 From LF Require Import Base.Opcode Interval.IntervalModel Interval.XR Interval.IntervalSound.
-From LF Require Gen.IntervalDispatch_gen Eval.KernelsAgree.
+From LF Require Gen.IntervalDispatch_gen Eval.KernelsAgree Gen.IntervalOps_gen Interval.IntervalAgree.
 
 (* what is assumed of the point kernels (eval_array.cpp): the arithmetic ones are
    the IEEE operations, the transcendental ones only by their NaN behaviour *)
@@ -98,9 +98,53 @@ Theorem C02_dispatch_from_source :
     match args op with Some 1%nat => ieval_un I B op a | _ => ieval_bin I B op a b end.
 Proof. exact @KernelsAgree.ieval_gen_eq. Qed.
 
+(* THE OPERATIONS ARE THE SOURCE'S.  Every operation of the C++ class Interval - the may-be-NaN flag formula, the case
+   analysis (atan2's nine cases, mod's switch with its fall-through, the zero-crossing tests of / recip pow, atan's
+   infinite-bound rescue, log's and nth_root's NaN-bound repairs, compare, nanfill, min / max under
+   LIBFIVE_USES_STD_MIN_AND_MAX), state(), isFilled / isEmpty and the two-float constructor - is re-read from
+   include/libfive/eval/interval.hpp on every run by translate/gen_interval.py (Gen/IntervalOps_gen.v: a statement-level
+   translation, let for let and if for if; what the translator does not understand makes the file fail) and is the
+   operation of the model that C02_eval_sound is about, for every number type, every [I], every [B], all operands.
+   Recorded, not derived: the two libm facts in pow's flag (isnan(pow(0.0f,-1.0f)) and isnan(pow(-1.0f, int)) are
+   false: [libm_nan_on_zero_to_negative], [libm_pow_m1_is_nan]); the protected constructor's re-ordering of
+   inverted bounds is translated ([g_ctor_norm]) and is the identity on ordered bounds ([g_ctor_plain]). *)
+Theorem C02_interval_ops_from_source :
+  forall (num : Type) (I : @iops num) (B : @bprims num),
+    (forall a, IntervalOps_gen.g_is_filled I B a = is_filled I a) /\
+    (forall a, IntervalOps_gen.g_is_empty I B a = is_empty I a) /\
+    (forall a, IntervalOps_gen.g_state_of I B a = state_of I a) /\
+    (forall lo hi, IntervalOps_gen.g_mk I B lo hi = mk I lo hi) /\
+    (forall a b, IntervalOps_gen.g_iadd I B a b = iadd I B a b) /\
+    (forall a b, IntervalOps_gen.g_isub I B a b = isub I B a b) /\
+    (forall a b, IntervalOps_gen.g_imul I B a b = imul I B a b) /\
+    (forall a b, IntervalOps_gen.g_idiv I B a b = idiv I B a b) /\
+    (forall a b, IntervalOps_gen.g_imin I B a b = imin B a b) /\
+    (forall a b, IntervalOps_gen.g_imax I B a b = imax B a b) /\
+    (forall y x, IntervalOps_gen.g_iatan2 I B y x = iatan2 I y x) /\
+    (forall a b, IntervalOps_gen.g_ipow I B a b = ipow I B a b) /\
+    (forall a b, IntervalOps_gen.g_inth_root I B a b = inth_root I B a b) /\
+    (forall a b, IntervalOps_gen.g_imod I B a b = imod I B a b) /\
+    (forall a b, IntervalOps_gen.g_inanfill I B a b = inanfill B a b) /\
+    (forall a b, IntervalOps_gen.g_icompare I B a b = icompare I a b) /\
+    (forall a, IntervalOps_gen.g_isquare I B a = isquare B a) /\
+    (forall a, IntervalOps_gen.g_isqrt I B a = isqrt I B a) /\
+    (forall a, IntervalOps_gen.g_ineg I B a = ineg B a) /\
+    (forall a, IntervalOps_gen.g_isin I B a = isin I B a) /\
+    (forall a, IntervalOps_gen.g_icos I B a = icos I B a) /\
+    (forall a, IntervalOps_gen.g_itan I B a = itan I B a) /\
+    (forall a, IntervalOps_gen.g_iasin I B a = iasin I B a) /\
+    (forall a, IntervalOps_gen.g_iacos I B a = iacos I B a) /\
+    (forall a, IntervalOps_gen.g_iatan I B a = iatan I B a) /\
+    (forall a, IntervalOps_gen.g_iexp I B a = iexp B a) /\
+    (forall a, IntervalOps_gen.g_ilog I B a = ilog I B a) /\
+    (forall a, IntervalOps_gen.g_iabs I B a = iabs B a) /\
+    (forall a, IntervalOps_gen.g_irecip I B a = irecip I B a).
+Proof. intros num I B. exact (IntervalAgree.interval_ops_from_source I B). Qed.
+
 Print Assumptions C02_eval_sound.
 Print Assumptions C02_classified_ok.
 Print Assumptions C02_mod_flag_sound.
 Print Assumptions C02_eval_sound_instance.
 Print Assumptions C02_flagged_is_ambiguous.
 Print Assumptions C02_dispatch_from_source.
+Print Assumptions C02_interval_ops_from_source.
